@@ -42,7 +42,7 @@ try:
     rcb, outb = run("go build ./... && go build -tags verif ./diam/...")
     res["build"] = rcb
     os.remove(os.path.join(wt, pkgdir, "zz_seed_demo_test.go"))
-    rcs, outs = run(f"/tmp/run_pinned_tests.sh {wt}")
+    rcs, outs = run(f"/verif/scripts/run_pinned_tests.sh {wt}")
     res["pinned_suite_with_change"] = dict(rc=rcs, tail=outs.strip().split("\n")[0] if outs.strip() else "")
     shutil.copy(os.path.join(src, demo), os.path.join(wt, pkgdir, "zz_seed_demo_test.go"))
     rc1, out1 = run(cmd)
